@@ -248,6 +248,12 @@ def sync(ctx: Ctx, rule="R-C11-SYNC") -> None:
     ok = len(up) == 1 and any(isinstance(c, ast.Call) and unparse(c.func) == f"self.topics_by_queue[{dotted(up[0].target.elts[0])}].update" and unparse(c.args[0]) == dotted(up[0].target.elts[1])
                               for c in ast.walk(up[0]))
     ctx.check(ok, rule, ir, "include_router unions the topic sets per queue", "topics_by_queue[q].update(topics)", "include_router does not union the included router's topics per queue", instance="include_router: union")
+    alias = [n for n in ast.walk(ir.node) if isinstance(n, ast.Assign) and any(isinstance(t, ast.Subscript) and dotted(t.value) == "self.topics_by_queue" for t in n.targets)
+             and not (isinstance(n.value, ast.Call) and (dotted(n.value.func) in ("set", "frozenset") or (isinstance(n.value.func, ast.Attribute) and n.value.func.attr == "copy")))
+             and not isinstance(n.value, (ast.Set, ast.SetComp))]
+    ctx.check(not alias, rule, ir, "include_router never stores another router's topic set object", "sets are merged by update / copied",
+              f"include_router stores the included router's own set object ({unparse(alias[0])[:80] if alias else ''}): both routers then share one topic set, and a later registration on one of them "
+              "silently changes the topics the other one consumes", node=alias[0] if alias else None, instance="include_router: no aliasing")
     ctx.check(any(isinstance(c, ast.Call) and unparse(c) == "self.actors.update(router.actors)" for c in ast.walk(ir.node)), rule, ir, "include_router unions the actors", "actors.update(router.actors)",
               "include_router does not take over the included router's actors", instance="include_router: actors")
     ft = ctx.func(f"{ROUTER}._forget_topic")
